@@ -926,6 +926,33 @@ def r11_scoping(ctx: Ctx) -> None:
                       f'{m.name}: ' + '; '.join(why) + ': an inner comprehension that reuses the name of an outer loop variable (or of a := binding) destroys the outer binding, '
                       f'unlike the same Python construct (renaming the inner variable changes the result)', lp)
     ctx.need(n >= 2, f'C04.R11: only {n} comprehension loops binding a scope variable found')
+    # (d) a := binding made anywhere inside a comprehension lives on in the enclosing scope, as in Python: while an expression is being
+    #     evaluated the scope is changed key by key only (loop variable saved / restored / popped, walrus stored); no internal method puts
+    #     back a snapshot of the whole scope or empties it, which would also throw away the := bindings made since
+    touched = 0
+    for m in te.methods.values():
+        if m.name == '__init__' or not m.name.startswith('_'):
+            continue
+        keyed = [x for x in all_nodes(m.node) if isinstance(x, ast.Subscript) and src(x.value) == 'self._scope' and isinstance(x.ctx, (ast.Store, ast.Del))] + \
+                [x for x in all_nodes(m.node) if isinstance(x, ast.Call) and src(x.func) in ('self._scope.pop', 'self._scope.setdefault')]
+        whole = []
+        for x in all_nodes(m.node):
+            if isinstance(x, (ast.Assign, ast.AnnAssign, ast.AugAssign)):
+                tg = x.targets if isinstance(x, ast.Assign) else [x.target]
+                flat = [e for t in tg for e in (t.elts if isinstance(t, (ast.Tuple, ast.List)) else [t])]
+                if any(src(t) == 'self._scope' for t in flat) and not (isinstance(x, ast.AnnAssign) and x.value is None):
+                    whole.append(x)
+            elif isinstance(x, ast.Call) and src(x.func) in ('self._scope.clear', 'setattr') and (src(x.func) != 'setattr' or (
+                    len(x.args) >= 2 and src(x.args[0]) == 'self' and isinstance(x.args[1], ast.Constant) and x.args[1].value == '_scope')):
+                whole.append(x)
+        if not keyed and not whole:
+            continue
+        touched += 1
+        ctx.check(not whole, 'C04.R11', m, f'scope-whole:{m.name}', f'{m.name}: the scope is changed key by key only ({len(keyed)} keyed stores/removals)',
+                  f'{m.name} replaces or empties the whole scope during evaluation (`{src(whole[0])[:60]}`, line {whole[0].lineno}): every := binding made since the snapshot '
+                  f'is discarded with it, so `[... (x := f(r)) ... for r in rows]` followed by a use of x sees "Unknown variable" or a stale outer value, '
+                  f'unlike the same Python construct where := inside a comprehension binds in the enclosing scope' if whole else '', whole[0] if whole else m.node)
+    ctx.need(touched >= 3, f'C04.R11: only {touched} evaluator methods changing the scope found (3 confirmed by hand: comprehension loop, generator helper, walrus)')
 
 
 
